@@ -266,7 +266,7 @@ func (sf *obfs4ServerFactory) WrapConn(conn net.Conn) (net.Conn, error) {
 		iatDist = probdist.New(sf.iatSeed, 0, maxIATDelay, *biasedDist)
 	}
 
-	c := &obfs4Conn{conn, true, lenDist, iatDist, sf.iatMode, bytes.NewBuffer(nil), bytes.NewBuffer(nil), make([]byte, consumeReadSize), nil, nil}
+	c := &obfs4Conn{conn, true, lenDist, iatDist, sf.iatMode, bytes.NewBuffer(nil), bytes.NewBuffer(nil), make([]byte, consumeReadSize), nil, nil, nil}
 
 	startTime := time.Now()
 
@@ -293,6 +293,10 @@ type obfs4Conn struct {
 
 	encoder *framing.Encoder
 	decoder *framing.Decoder
+
+	// readErr is the fatal error that is held back while decoded data is
+	// still waiting to be delivered by Read.
+	readErr error
 }
 
 func newObfs4ClientConn(conn net.Conn, args *obfs4ClientArgs) (*obfs4Conn, error) {
@@ -316,7 +320,7 @@ func newObfs4ClientConn(conn net.Conn, args *obfs4ClientArgs) (*obfs4Conn, error
 	}
 
 	// Allocate the client structure.
-	c := &obfs4Conn{conn, false, lenDist, iatDist, args.iatMode, bytes.NewBuffer(nil), bytes.NewBuffer(nil), make([]byte, consumeReadSize), nil, nil}
+	c := &obfs4Conn{conn, false, lenDist, iatDist, args.iatMode, bytes.NewBuffer(nil), bytes.NewBuffer(nil), make([]byte, consumeReadSize), nil, nil, nil}
 
 	// Start the handshake timeout.
 	deadline := time.Now().Add(clientHandshakeTimeout)
@@ -465,6 +469,11 @@ func (conn *obfs4Conn) Read(b []byte) (int, error) {
 	// so do this in a loop till data is present or an error occurs.
 	var err error
 	for conn.receiveDecodedBuffer.Len() == 0 {
+		if conn.readErr != nil {
+			// Everything that was decoded has been delivered.
+			err = conn.readErr
+			break
+		}
 		err = conn.readPackets()
 		if errors.Is(err, framing.ErrAgain) {
 			// Don't proagate this back up the call stack if we happen to break
@@ -486,6 +495,11 @@ func (conn *obfs4Conn) Read(b []byte) (int, error) {
 			// Only propagate berr if there are not more important (fatal)
 			// errors from the network/crypto/packet processing.
 			err = berr
+		} else if conn.receiveDecodedBuffer.Len() > 0 {
+			// b was too small for all of the decoded data.  A caller that
+			// stops at the first error (eg: io.Copy()) would never see the
+			// rest, so report the error once it has been delivered.
+			conn.readErr, err = err, nil
 		}
 	}
 
